@@ -570,3 +570,23 @@ PROPS['C06'] = dict(
              require=['c06.worker_deliveries_checked']),
     ],
 )
+
+
+# ------------------------------------------------------------------ TS lab
+from . import props_ts as _ts  # noqa: E402
+
+HARNESS.update(_ts.HARNESS_TS)
+ENGINES.append(_ts.ENGINE_TS)
+for _pid in ('C15', 'C16', 'C17'):
+    PROPS[_pid] = _ts.PROPS_TS[_pid]
+PROPS['C14']['jobs'] = PROPS['C14']['jobs'] + _ts.PROPS_TS['C14ts']['jobs']
+PROPS['C14']['key_prefixes'] = PROPS['C14']['key_prefixes'] + ['asan:', 'tslab:']
+PROPS['C14']['rule'] += '; ' + _ts.PROPS_TS['C14ts']['rule_ts']
+PROPS['C14']['assumptions'] = PROPS['C14']['assumptions'] + \
+    _ts.PROPS_TS['C14ts']['assumptions_ts']
+PROPS['C14']['technique'] += ('; TS part (ts_sync / ts_check / ts_align, '
+                              'compiled against the biTStream shim): '
+                              'cutting-metamorphic comparison, unit shape and '
+                              'conservation checks, reference scanner as a '
+                              'diagnostic')
+PROPS['C14']['level_note'] += ' ' + _ts.SHIM_NOTE
